@@ -231,6 +231,52 @@ def build_harness():
     return os.path.join(HARNESS, "target", "release", "rxverif-harness")
 
 
+HARNESS_RT = os.path.join(VERIF, "harness_rt")
+
+
+def build_harness_rt():
+    """The small second harness: the crate built WITH its `timer` feature (the real timer)."""
+    with Lock("cargo-rt"):
+        lock_dst = os.path.join(HARNESS_RT, "Cargo.lock")
+        if not os.path.exists(lock_dst):
+            sh(["cp", os.path.join(REPO, "Cargo.lock"), lock_dst], check=True)
+        rc, out = sh(["timeout", "1500", "cargo", "build", "--release", "--offline", "-q"], cwd=HARNESS_RT)
+        if rc != 0:
+            errs = [l for l in out.split("\n") if l.startswith("error")]
+            raise CheckFailure("harness-rt-build", "\n".join(errs[:5]) + "\n---\n" + out[-3000:])
+
+
+def real_timer_cases(rep, theorem):
+    """The timed models assume of the real timer only that `new_timer(d)` is not ready before d has elapsed (all the
+    checks on the virtual clock replace it).  This runs the crate's own timer: timer(d) / interval(d) on a LocalPool polled
+    for 350 ms; delays up to 120 ms must run and not early, 2 s and the delays beyond u32 milliseconds / u32 seconds / u64
+    microseconds must not have run."""
+    try:
+        build_harness_rt()
+        rc, out = sh(["timeout", "120", os.path.join(HARNESS_RT, "target", "release", "rxverif-harness-rt")])
+        if rc != 0:
+            raise CheckFailure("harness-rt-run", "exit %d\n%s" % (rc, out[-2000:]))
+    except CheckFailure as e:
+        rep.violations.append(("correspondence cannot be established: " + e.what,
+                               {"obligation": e.what, "detail": e.detail, "failing_input_found": False}))
+        return
+    n = 0
+    for line in out.split("\n"):
+        if not line.strip():
+            continue
+        cid, obs = line.split(" ", 1)
+        n += 1
+        small = any(cid.endswith(x) for x in ("-0ms", "-30ms", "-1500us", "-120ms"))
+        want = "ran" if small else "not-run"
+        if obs != want:
+            rep.fail("the real timer: a task scheduled with this delay %s" % ("ran before the delay had elapsed" if obs.startswith("ran") else "did not run in time: " + obs),
+                     {"case": "(real-timer %s)" % cid, "impl": obs, "spec": want, "theorem": theorem, "failing_input_found": True,
+                      "replay": "harness_rt/target/release/rxverif-harness-rt"}, {})
+    c = rep.coverage
+    c["evaluations"] = c.get("evaluations", 0) + n
+    c["real_timer_cases"] = n
+
+
 def _parse_impl(out, res):
     for line in out.split("\n"):
         if not line:
